@@ -6,6 +6,7 @@ peer's tun device."""
 import os
 import vlib
 import syslib
+import looplib
 
 
 def oracle(hist, gen, out):
@@ -32,8 +33,31 @@ def oracle(hist, gen, out):
     return None, None, n_s, n_c
 
 
+def loop_integrity(rep, ctx):
+    """the real select loops of both programs in virtual time with the real zlib (looplib.py): nothing may be written to a tun
+    device that was not offered at the peer's, and nothing twice, under fault windows with loss / duplication / delay"""
+    if 'loopsim' not in ctx.exe:
+        return
+    n = 800 if rep.tier == 'quick' else 12000
+    cases, stats = looplib.gen(rep.seed, n, tag='c01loop')
+    res = looplib.run_all(ctx.exe['loopsim'], cases)
+    delivered = 0
+    for a, (rc, out) in zip(cases, res):
+        kind, txt = looplib.classify(rc, out)
+        delivered += looplib.counters(out)
+        if rc == 1:
+            viol = [l for l in out.splitlines() if l.startswith('VIOLATION') and 'garbage' in l]
+            if viol:
+                rep.add_violation('loop:integrity', 'real select loops in virtual time, real zlib: ' + ' / '.join(viol)[:400],
+                                  dict(kind='loop', driver='loopsim', case=' '.join(a), expected='only packets offered at the peer tun (repeats are allowed by C01)'))
+                break
+    rep.cov['loop_oracle'] = dict(runs=len(cases), distribution=stats, packets_delivered_in_checked_windows=delivered)
+    rep.cov['evaluations'] = rep.cov.get('evaluations', 0) + len(cases)
+
+
 def check(rep):
-    ctx = vlib.prepare(rep, harnesses={'sys': syslib.SYS, 'sysreal': syslib.SYS_REAL}, sanitize=False, model='SYS')
+    ctx = vlib.prepare(rep, harnesses={'sys': syslib.SYS, 'sysreal': syslib.SYS_REAL, 'loopsim': looplib.LOOPSIM}, sanitize=False, model='SYS')
+    loop_integrity(rep, ctx)
     nh, ne = (240, 160) if rep.tier == 'quick' else (3000, 250)
     corpus = []
     cp = os.path.join(vlib.VERIF, 'corpus', 'C01')
@@ -49,7 +73,7 @@ def check(rep):
                        're-sends with rewritten DNS id and randomised letter case, time-outs, clock ticks (incl. >60 s); plus fault-prefix/clean-suffix '
                        'schedules. distinct = distinct schedules; non-trivial = schedules in which at least one packet reached a tun device')
     rep.cov['input_distribution'] = stats
-    rep.cov['evaluations'] = sum(h.count(' ; ') for h in allh)
+    rep.cov['evaluations'] = rep.cov.get('evaluations', 0) + sum(h.count(' ; ') for h in allh)
     env = {'VERIF_FULL': '1'}
     delivered = 0
     if 'sys' in ctx.exe and 'sysreal' in ctx.exe:
@@ -129,6 +153,9 @@ def framing_search(ctx, allh, allg):
 
 
 def replay(rp):
+    if rp.get('kind') == 'loop':
+        import c02
+        return c02.replay_loop(rp)
     rep = vlib.Report('C01', 'quick', rp.get('seed', 1))
     ctx = vlib.prepare(rep, harnesses={'sys': syslib.SYS_REAL}, sanitize=False, prove_it=False, model='SYS')
     case = rp.get('case')
